@@ -67,6 +67,7 @@ OUTSIDE_PIPELINE = [
     "numerical behaviour of HiGHS / Clarabel / scipy.stats.bootstrap (stubbed by contract)",
 ]
 
+LAST_S3 = None
 MIN_REP = {"nonparametric": {0.5: 4, 0.7: 6}, "gaussian": {0.5: 7, 0.7: 7, 0.9: 7}, "bootstrap": {0.5: 10, 0.7: 10, 0.9: 10}}
 
 
@@ -171,7 +172,7 @@ CUT_STUB_NOTE = ("cut: _compute_population_correction and weighted_median (sort-
 
 
 def run_client(ctx, case, sc=None, qr_fail=None, qr_mode="uf", client=None, extra_kwargs=None, frames=None,
-               real_qr_in_replay=False, config=None):
+               real_qr_in_replay=False, config=None, keep_s3=False):
     """run the real client; returns Run(res | exc, sc, qr, s3, client)"""
     from elexmodel.client import ModelClient
 
@@ -186,6 +187,8 @@ def run_client(ctx, case, sc=None, qr_fail=None, qr_mode="uf", client=None, extr
     qr = stubs.QRStub(mode=qr_mode, fail=qr_fail, real_in_replay=real_qr_in_replay).install()
     bs = stubs.BootSigmaStub(force_deterministic=case.get("boot_sigma_deterministic", False)).install()
     s3 = stubs.FakeS3().install()
+    global LAST_S3
+    LAST_S3 = s3
     cut = CalibrationCut().install() if case.get("cut_calibration") else None
     out = Run()
     out.sc, out.qr, out.s3, out.exc, out.res = sc, qr, s3, None, None
